@@ -210,7 +210,7 @@ PROPS = {
         "shards": 8,
     },
     "C18": {
-        "level_text": "Companion Props/C18ResetSame: reset_flw onto the SAME family = flush + fresh Initial state on the same directory (resetSame_state), the directory the new state starts on holds every byte logged so far, the buffered tail included (resetSame_keeps_everything, resetSame_stream). Kernel-checked: (reopen, non-rotating writer, every buffer capacity) for every history of writes/flushes/external renames/reopen_output the files "
+        "level_text": "Companion Props/C18Fanout over Model/Fanout: every configured writer is called whatever the earlier ones returned, the first error is reported (callAll_calls_everyone, callAll_ok_iff, callAll_reaches_behind_failure). Companion Props/C18ResetSame: reset_flw onto the SAME family = flush + fresh Initial state on the same directory (resetSame_state), the directory the new state starts on holds every byte logged so far, the buffered tail included (resetSame_keeps_everything, resetSame_stream). Kernel-checked: (reopen, non-rotating writer, every buffer capacity) for every history of writes/flushes/external renames/reopen_output the files "
                       "— moved files in the order they were moved, then the file at the original path — hold exactly the written bytes, grouped on record boundaries; the "
                       "not-yet-flushed tail lands in the OLD file (reopen_flushes_into_old_file); after an external delete exactly the deleted file and what was written "
                       "before reopen_output are lost (remove_then_reopen). (reset_flw, all namings before and after) everything logged before a reset remains in the old "
